@@ -12,6 +12,7 @@ package swarm
 // Wire format: /verif/coq/c12/Spec.v.
 
 import (
+	"bytes"
 	"context"
 	"os"
 	"crypto/rand"
@@ -81,7 +82,103 @@ func (c *c12Conn) Close() error {
 	return nil
 }
 func (c *c12Conn) CloseWithError(network.ConnErrorCode) error { return c.Close() }
-func (c *c12Conn) IsClosed() bool                             { return c.closed.Load() }
+func (c *c12Conn) IsClosed() bool {
+	if lv := c.h.lever.Load(); lv != nil && lv.connID == c.id && lv.armed.Load() {
+		lv.maybeFire()
+	}
+	return c.closed.Load()
+}
+
+// ---- the lever of op 15 ---------------------------------------------------------------------
+// A non-limited connection is handed to Swarm.addConn at the very moment a call has looked at
+// the peer's connections inside waitForDirectConn (the IsClosed callback of the only usable
+// connection, called from bestConnToPeer) and has not yet registered as a waiter.  The call is
+// held before it can go on (Conn.Stat() of the connection it found takes that connection's
+// stream lock, which the lever holds) until addConn has got as far as it can without the call:
+// either it is past its notify section (the Connected handler of the new connection runs) or it
+// is blocked in sync.Mutex.Lock called from addConn itself (the waiter-list lock, held by the
+// call).  No clocks: the helper spins on those two conditions.
+type c12Lever struct {
+	h         *c12H
+	connID    int
+	lc        *Conn
+	direct    *c12Conn
+	armed     atomic.Bool
+	fired     atomic.Bool
+	connected atomic.Bool
+	addGid    atomic.Value
+	addDone   chan struct{}
+	how       atomic.Int32 // 1 addConn ran past the notify section first, 2 addConn blocked on the waiter-list lock, 3 gave up
+}
+
+func (lv *c12Lever) maybeFire() {
+	var buf [6144]byte
+	n := runtime.Stack(buf[:], false)
+	if !bytes.Contains(buf[:n], []byte(").waitForDirectConn(")) {
+		return
+	}
+	if !lv.armed.CompareAndSwap(true, false) {
+		return
+	}
+	lv.fired.Store(true)
+	lv.lc.streams.Lock() // unlocked by release()
+	go func() {
+		lv.addGid.Store(c12GoroutineID())
+		if _, err := lv.h.s.addConn(lv.direct, network.DirInbound); err != nil {
+			lv.h.mu.Lock()
+			lv.h.cov["addconn.error"] = true
+			lv.h.mu.Unlock()
+		}
+		close(lv.addDone)
+	}()
+	go lv.release()
+}
+
+func (lv *c12Lever) release() {
+	how := int32(3)
+	for i := 0; i < 200000; i++ {
+		if lv.connected.Load() {
+			how = 1
+			break
+		}
+		if i%8 == 7 && lv.addBlockedOnWaiterLock() {
+			how = 2
+			break
+		}
+		runtime.Gosched()
+	}
+	lv.how.Store(how)
+	lv.lc.streams.Unlock()
+}
+
+// is the addConn goroutine parked in a sync.Mutex.Lock that addConn itself called (not
+// the RWMutex of the connection table, not a lock taken by something addConn calls)?
+func (lv *c12Lever) addBlockedOnWaiterLock() bool {
+	gid, _ := lv.addGid.Load().(string)
+	if gid == "" {
+		return false
+	}
+	buf := make([]byte, 1<<18)
+	n := runtime.Stack(buf, true)
+	for _, blk := range strings.Split(string(buf[:n]), "\n\n") {
+		if !strings.HasPrefix(blk, "goroutine "+gid+" ") {
+			continue
+		}
+		lines := strings.Split(blk, "\n")
+		if !strings.Contains(lines[0], "sync.Mutex.Lock") || strings.Contains(blk, "RWMutex") {
+			return false
+		}
+		for _, ln := range lines[1:] {
+			if strings.HasPrefix(ln, "\t") || strings.HasPrefix(ln, "sync.") || strings.HasPrefix(ln, "internal/sync.") ||
+				strings.HasPrefix(ln, "runtime.") || strings.HasPrefix(ln, "internal/runtime") {
+				continue
+			}
+			return strings.Contains(ln, "(*Swarm).addConn(")
+		}
+		return false
+	}
+	return false
+}
 
 // OpenStream parks until the harness says how it ends (it ignores ctx: a
 // transport that is slow to notice cancellation).
@@ -262,6 +359,7 @@ type c12H struct {
 	codes  map[string]int64
 	cov    map[string]bool
 	blocked map[int]chan struct{} // conn id -> its Connected handler waits on this
+	lever   atomic.Pointer[c12Lever]
 	line   []int64
 	lastOp int64
 	prev   [][2]int64
@@ -642,23 +740,91 @@ func (h *c12H) opReap(id int) {
 	h.finish()
 }
 
-func (h *c12H) opStart(dial, allow, force, nodial bool) {
+// c12Force: force = 0 not set, 1 WithForceDirectDial with a reason, 2 with the empty reason
+// (the reason string is informational; the option is set either way)
+func (h *c12H) c12Force(ctx context.Context, force int) context.Context {
+	switch force {
+	case 1:
+		ctx = network.WithForceDirectDial(ctx, "c12")
+		h.cov["opt.force_direct.reason_given"] = true
+	case 2:
+		ctx = network.WithForceDirectDial(ctx, "")
+		h.cov["opt.force_direct.reason_empty"] = true
+	}
+	return ctx
+}
+
+func (h *c12H) opStart(dial, allow bool, force int, nodial bool) {
 	h.lastOp = 4
-	h.line = append(h.line, 4, c12b(dial), c12b(allow), c12b(force), c12b(nodial))
+	h.line = append(h.line, 4, c12b(dial), c12b(allow), int64(force), c12b(nodial))
+	h.launch(dial, allow, force, nodial)
+	h.finish()
+}
+
+// opRace (wire op 15): a call starts, and a non-limited connection arrives while it runs, at
+// the earliest moment after the call has looked at the connection list in waitForDirectConn
+// (see c12Lever); if the call never gets there, once it has blocked.  The lever is armed only
+// when exactly one connection is usable and that one is limited.
+func (h *c12H) opRace(dial, allow bool, force int, nodial, proxy bool) {
+	h.lastOp = 1
+	h.line = append(h.line, 15, c12b(dial), c12b(allow), int64(force), c12b(nodial), c12b(proxy))
+	var t transport.Transport = h.direct
+	raddr := ma.StringCast(fmt.Sprintf("/ip4/5.6.7.8/tcp/%d", 6000+len(h.conns)))
+	if proxy {
+		t = h.relay
+		raddr = ma.StringCast(fmt.Sprintf("/ip4/9.9.9.9/tcp/%d/p2p/%s/p2p-circuit", 6000+len(h.conns), c12RelayID))
+	}
+	var usable []*c12Conn
+	for _, nc := range h.s.ConnsToPeer(h.p) {
+		if fc, ok := nc.(*Conn).conn.(*c12Conn); ok && !fc.closed.Load() {
+			usable = append(usable, fc)
+		}
+	}
+	nc := h.newConn(false, t, raddr)
+	lv := &c12Lever{h: h, direct: nc, addDone: make(chan struct{})}
+	if len(usable) == 1 && usable[0].lim {
+		lv.connID = usable[0].id
+		lv.lc = h.swarmConn(usable[0].id)
+		lv.armed.Store(lv.lc != nil)
+	}
+	h.lever.Store(lv)
+	h.launch(dial, allow, force, nodial)
+	synctest.Wait()
+	if lv.fired.Load() {
+		<-lv.addDone
+		h.cov["race.conn_added_between_look_and_registration"] = true
+		switch lv.how.Load() {
+		case 1:
+			h.cov["race.addconn_notified_before_the_call_registered"] = true
+		case 2:
+			h.cov["race.addconn_waited_for_the_call_to_register"] = true
+		default:
+			h.cov["race.lever_gave_up"] = true
+		}
+	} else {
+		lv.armed.Store(false)
+		h.cov["race.call_never_looked_conn_added_afterwards"] = true
+		if _, err := h.s.addConn(nc, network.DirInbound); err != nil {
+			h.cov["addconn.error"] = true
+		}
+	}
+	h.lever.Store(nil)
+	h.finish()
+}
+
+func (h *c12H) launch(dial, allow bool, force int, nodial bool) {
 	tid := len(h.calls)
 	ctx := context.WithValue(context.Background(), c12TidKey{}, tid)
 	if allow {
 		ctx = network.WithAllowLimitedConn(ctx, "c12")
 	}
-	if force {
-		ctx = network.WithForceDirectDial(ctx, "c12")
-	}
+	ctx = h.c12Force(ctx, force)
 	if nodial {
 		ctx = network.WithNoDial(ctx, "c12")
 	}
 	ctx, cancel := context.WithCancel(ctx)
 	c := &c12Call{tid: tid, dial: dial, cancel: cancel,
-		opts: c12b(dial) + 2*c12b(allow) + 4*c12b(force) + 8*c12b(nodial)}
+		opts: c12b(dial) + 2*c12b(allow) + 4*c12b(force != 0) + 8*c12b(nodial)}
 	h.mu.Lock()
 	h.calls = append(h.calls, c)
 	h.mu.Unlock()
@@ -690,7 +856,6 @@ func (h *c12H) opStart(dial, allow, force, nodial bool) {
 		}
 		c.okConn = sc.conn.(*c12Conn).id
 	}()
-	h.finish()
 }
 
 func (h *c12H) opCtx(tid int) {
@@ -835,9 +1000,23 @@ func (g *c12Gen) pickConnClass() (lim, proxy bool) {
 	}
 }
 
+// force-direct: with a reason or with the empty reason string, half and half
+func (g *c12Gen) force(on bool) int {
+	if !on {
+		return 0
+	}
+	return 1 + g.r.Intn(2)
+}
+
 func (g *c12Gen) startCall(dial bool, opts int) {
 	g.nodial[len(g.h.calls)] = opts&4 != 0 && !dial
-	g.h.opStart(dial, opts&1 != 0, opts&2 != 0, opts&4 != 0)
+	g.h.opStart(dial, opts&1 != 0, g.force(opts&2 != 0), opts&4 != 0)
+}
+
+// a call during which a non-limited connection arrives (wire op 15)
+func (g *c12Gen) raceCall(dial bool, opts int, proxy bool) {
+	g.nodial[len(g.h.calls)] = opts&4 != 0 && !dial
+	g.h.opRace(dial, opts&1 != 0, g.force(opts&2 != 0), opts&4 != 0, proxy)
 }
 
 func (g *c12Gen) randAddrs() {
@@ -925,7 +1104,15 @@ func (g *c12Gen) randomOp() {
 			}
 			if r.Chance(1, 5) {
 				g.nodial[len(h.calls)] = false
-				h.opConnect(r.Bool(), r.Bool(), r.Chance(1, 4))
+				h.opConnect(r.Bool(), g.force(r.Bool()), r.Chance(1, 4))
+				return
+			}
+			if r.Chance(1, 6) {
+				if r.Chance(3, 4) {
+					g.raceCall(false, r.Intn(4)<<1, r.Chance(1, 5))
+				} else {
+					g.raceCall(r.Chance(1, 3), r.Intn(8), r.Chance(1, 5))
+				}
 				return
 			}
 			g.startCall(r.Chance(1, 3), r.Intn(8))
@@ -1034,6 +1221,28 @@ func (g *c12Gen) opening(kind int) {
 		if kind == 6 {
 			h.opAdd(false, false, true) // a direct connection that is gone before anybody can use it
 		}
+	case 12:
+		// a limited connection, 0-2 calls already waiting, and a call during which the direct
+		// connection arrives: between its look at the connection list and its registration
+		h.opAdd(true, true, false)
+		if r.Chance(1, 4) {
+			h.opAdd(true, true, true) // a second one, already closed
+		}
+		k := r.Intn(3)
+		for j := 0; j < k; j++ {
+			g.startCall(false, noAllow())
+		}
+		g.raceCall(false, noAllow(), r.Chance(1, 5))
+		if r.Chance(1, 2) {
+			for tid := 0; tid <= k; tid++ {
+				if r.Chance(2, 3) {
+					h.opOpenRes(tid, r.Chance(3, 4))
+				}
+			}
+		}
+		if r.Chance(1, 3) {
+			g.raceCall(false, noAllow(), false) // once more, now with a direct connection around
+		}
 	case 11:
 		// waiters with a deadline; a direct connection is admitted in time but a Connected
 		// handler blocks until after the deadline
@@ -1077,7 +1286,7 @@ func (g *c12Gen) opening(kind int) {
 		k := 1 + r.Intn(3)
 		for j := 0; j < k; j++ {
 			opts := r.Intn(8)
-			h.opConnect(opts&1 != 0, opts&2 != 0, opts&4 != 0)
+			h.opConnect(opts&1 != 0, g.force(opts&2 != 0), opts&4 != 0)
 		}
 	case 10:
 		// nothing but a relay address: a NewStream without allow-limited dials the limited
@@ -1233,7 +1442,7 @@ func TestVerifC12(t *testing.T) {
 	r := verifh.NewRand(verifh.Seed())
 	for i := 0; i < n; i++ {
 		cr := r.Fork()
-		kind := cr.Intn(12)
+		kind := cr.Intn(13)
 		steps := 4 + cr.Intn(22)
 		first := i < n/6
 		if first {
@@ -1265,6 +1474,8 @@ func c12ParseOps(in []int64) (ops [][]int64) {
 			n = 5
 		case 12:
 			n = 4
+		case 15:
+			n = 6
 		case 6, 11:
 			n = 3
 		case 7:
@@ -1310,7 +1521,9 @@ func c12Replay(h *c12H, ops [][]int64) {
 		case 3:
 			h.opReap(int(o[1]))
 		case 4:
-			h.opStart(o[1] != 0, o[2] != 0, o[3] != 0, o[4] != 0)
+			h.opStart(o[1] != 0, o[2] != 0, int(o[3]), o[4] != 0)
+		case 15:
+			h.opRace(o[1] != 0, o[2] != 0, int(o[3]), o[4] != 0, o[5] != 0)
 		case 5:
 			h.opCtx(int(o[1]))
 		case 6:
@@ -1324,7 +1537,7 @@ func c12Replay(h *c12H, ops [][]int64) {
 		case 11:
 			h.opStartOn(int(o[1]), o[2] != 0)
 		case 12:
-			h.opConnect(o[1] != 0, o[2] != 0, o[3] != 0)
+			h.opConnect(o[1] != 0, int(o[2]), o[3] != 0)
 		case 13:
 			h.opAddBlocked(o[1] != 0, o[2] != 0)
 		case 14:
@@ -1399,23 +1612,21 @@ func (h *c12H) opStartOn(id int, allow bool) {
 }
 
 // opConnect: BasicHost.Connect(ctx, {ID: p}) with the given context options
-func (h *c12H) opConnect(allow, force, nodial bool) {
+func (h *c12H) opConnect(allow bool, force int, nodial bool) {
 	h.lastOp = 12
-	h.line = append(h.line, 12, c12b(allow), c12b(force), c12b(nodial))
+	h.line = append(h.line, 12, c12b(allow), int64(force), c12b(nodial))
 	tid := len(h.calls)
 	ctx := context.WithValue(context.Background(), c12TidKey{}, tid)
 	if allow {
 		ctx = network.WithAllowLimitedConn(ctx, "c12")
 	}
-	if force {
-		ctx = network.WithForceDirectDial(ctx, "c12")
-	}
+	ctx = h.c12Force(ctx, force)
 	if nodial {
 		ctx = network.WithNoDial(ctx, "c12")
 	}
 	ctx, cancel := context.WithCancel(ctx)
 	c := &c12Call{tid: tid, dial: true, connect: true, cancel: cancel,
-		opts: 1 + 2*c12b(allow) + 4*c12b(force) + 8*c12b(nodial) + 16}
+		opts: 1 + 2*c12b(allow) + 4*c12b(force != 0) + 8*c12b(nodial) + 16}
 	h.mu.Lock()
 	h.calls = append(h.calls, c)
 	h.mu.Unlock()
@@ -1448,6 +1659,9 @@ func (n *c12Notifiee) Connected(_ network.Network, c network.Conn) {
 	fc, ok := sc.conn.(*c12Conn)
 	if !ok {
 		return
+	}
+	if lv := n.h.lever.Load(); lv != nil && lv.direct == fc {
+		lv.connected.Store(true)
 	}
 	n.h.mu.Lock()
 	ch := n.h.blocked[fc.id]
